@@ -8,6 +8,7 @@ import (
 	"math/rand"
 	"os"
 	"path/filepath"
+	"runtime"
 	"strings"
 	"time"
 
@@ -258,6 +259,9 @@ func MainV(F *VFuncs) {
 	replay := flag.String("replay", "", "replay file (JSON with config and choices)")
 	maxsec := flag.Int("maxsec", 0, "stop exploring after this many seconds (0 = no limit); the summary says so")
 	flag.Parse()
+	// two processors: the virtual scheduler runs one goroutine at a time anyway; an emitted function that sizes
+	// something by GOMAXPROCS then meets configurations with more inputs than processors
+	runtime.GOMAXPROCS(2)
 	if *replay != "" {
 		os.Exit(replayMain(F, *replay))
 	}
@@ -421,6 +425,22 @@ func (r *runner) plan(sys string, thorough bool, rng *rand.Rand) error {
 		}
 		for _, c := range DupSliceConfigs(sys, 3, 2) {
 			if err := r.random(c, 4, rng); err != nil {
+				return err
+			}
+		}
+	}
+	if sys == "joincc" || sys == "joinsc" { // one round-robin producer over unbuffered inputs (interdependent inputs)
+		if err := each(RRConfigs(sys), por, true); err != nil {
+			return err
+		}
+	}
+	if sys == "joinsc" { // more than 16 positions, one channel given twice far apart: random schedules
+		nr := 40
+		if thorough {
+			nr = 400
+		}
+		for _, c := range LongSliceConfigs() {
+			if err := r.random(c, nr, rng); err != nil {
 				return err
 			}
 		}
